@@ -85,6 +85,31 @@ impl Trace {
         self.prompts = self.prompts.push(self.execs.len() as int);
     }
 }
+/// C16: where run-time messages take their line from.  Kept apart from `Trace` (and free of sequences and quantifiers) so that
+/// recording a citation does not disturb the facts about the execution trace.  Updated by proof blocks that rewrite R7 puts
+/// after every `source_map.get(&<index>)` and every `get_err_pos(&lh, <position>)`.
+pub tracked struct CiteLog {
+    pub ghost has_lookup: bool,
+    pub ghost last_pos: int,        // the position the source map gave at the most recent lookup
+    pub ghost lookups_ok: bool,     // every lookup so far asked for the loop's current index (the instruction the message is about)
+    pub ghost cites_ok: bool,       // every line cited so far (after the first lookup) is the line of exactly that position
+    pub ghost n_cites: int,
+}
+impl CiteLog {
+    pub proof fn note_lookup(tracked &mut self, asked: int, idx: int, pos: int)
+        ensures final(self).has_lookup, final(self).last_pos == pos, final(self).lookups_ok == (old(self).lookups_ok && asked == idx),
+            final(self).cites_ok == old(self).cites_ok, final(self).n_cites == old(self).n_cites,
+    {
+        self.has_lookup = true; self.last_pos = pos; self.lookups_ok = self.lookups_ok && asked == idx;
+    }
+    pub proof fn note_cite(tracked &mut self, line: int, pos: int)
+        ensures final(self).cites_ok == (old(self).cites_ok && (old(self).has_lookup ==> pos == old(self).last_pos)),
+            final(self).has_lookup == old(self).has_lookup, final(self).last_pos == old(self).last_pos, final(self).lookups_ok == old(self).lookups_ok,
+            final(self).n_cites == old(self).n_cites + 1,
+    {
+        self.cites_ok = self.cites_ok && (self.has_lookup ==> pos == self.last_pos); self.n_cites = self.n_cites + 1;
+    }
+}
 pub open spec fn code_hlt(p: PreView) -> Seq<Seq<char>> {
     Seq::new(p.code.len() + 1, |k: int| if k < p.code.len() { p.code[k]@ } else { "hlt"@ })
 }
@@ -189,9 +214,11 @@ pub struct LexerHelper;
 /// length of the text the helper was built from
 pub uninterp spec fn lh_len(lh: &LexerHelper) -> int;
 // assumed contract: LexerHelper::get_line is under a BOUNDED Kani contract (unit b_lexer_get_line); get_err_pos adds 1 to the line number
+/// (1-based) number of the line of the text that contains position `pos`
+pub uninterp spec fn err_line(l: &LexerHelper, pos: int) -> int;
 #[verifier::external_body]
 pub fn get_err_pos(l: &LexerHelper, pos: usize) -> (r: (usize, usize, usize))
-    ensures r.1 <= r.2, pos <= lh_len(l) ==> r.1 <= pos <= r.2,
+    ensures r.1 <= r.2, pos <= lh_len(l) ==> r.1 <= pos <= r.2, r.0 == err_line(l, pos as int),
 { unimplemented!() }
 
 pub uninterp spec fn trim_of(s: Seq<char>) -> Seq<char>;
@@ -453,12 +480,14 @@ impl CMDDriver {
 //@ghost int_21 :: Tracked(verif_tr), Tracked(verif_log), Tracked(verif_in)
 //@ghost user_interface :: Tracked(verif_log), Tracked(verif_in), Tracked(verif_tr)
 //@after user_interface :: proof { verif_tr.note_prompt(); }
+//@after source_map.get :: proof { verif_ct.note_lookup((*($1)) as int, idx as int, *pos as int); }
+//@after get_err_pos :: proof { verif_ct.note_cite(line as int, ($2) as int); }
 //@str l
 //@before match lmap.get(l) { :: proof { assert(pctx.undefined_labels@.contains((*pos, *l))); lemma_least_undefined(verif_it.snapshot@.remaining(), verif_it.history@.len() as int, undefined_labels@, lmap@, (*pos, *l)); if !lmap@.contains_key(*l) { assert(undefined(verif_tr.pre, (*pos, *l))); } }
     requires
         vstd::std_specs::hash::obeys_key_model::<String>(),
         vstd::std_specs::btree::key_obeys_cmp_spec::<(usize, String)>(), vstd::laws_cmp::obeys_cmp::<&(usize, String)>(),
-        empty_trace(old(verif_tr)), lines_ok(old(verif_in)),
+        empty_trace(old(verif_tr)), lines_ok(old(verif_in)), !old(verif_ct).has_lookup && old(verif_ct).lookups_ok && old(verif_ct).cites_ok,
     ensures
         final(verif_tr).pre_calls == 1, //# C19 run.assembles_once
         // an invalid program: nothing of it is loaded or executed, and something is reported
@@ -480,12 +509,14 @@ impl CMDDriver {
         p_int(final(verif_tr)) && p_svcs(final(verif_tr)), //# C18 run.supported_services_dispatched_once_with_ah
         p_data(final(verif_tr)), //# C12 run.data_loaded_in_order_into_fresh_machine_before_code
         p_prompts(final(verif_tr)), //# C20 run.one_prompt_per_instruction_iff_stepping_and_at_int3
+        final(verif_ct).cites_ok && final(verif_ct).lookups_ok, //# C16,C20 run.messages_cite_the_line_of_the_instructions_own_source_position
         final(verif_tr).execs.len() > 0 && (final(verif_tr).execs.last().res matches Some(State::INT(m)) && (m == 0x10 || m == 0x21) && !ah_ok(m, final(verif_tr).execs.last().ah_after))
             ==> final(verif_log).entries.len() > final(verif_tr).execs.last().log_len, //# C18 run.unsupported_service_is_reported
 //@loop 0
         invariant
             verif_tr.pre_calls == 1 && verif_tr.datas.len() == 0 && verif_tr.execs.len() == 0 && verif_tr.svcs.len() == 0 && verif_tr.code_prints.len() == 0 && verif_tr.prompts.len() == 0, //# C14 check.nothing_loaded_or_executed_while_checking_labels
             verif_log.entries == old(verif_log).entries, //# C14,C19 check.nothing_reported_before_the_first_undefined_label
+            !verif_ct.has_lookup && verif_ct.lookups_ok && verif_ct.cites_ok,
             verif_it.history@.len() <= verif_it.snapshot@.remaining().len(),
             forall|k: int| 0 <= k < verif_it.history@.len() ==> verif_it.history@[k] == verif_it.snapshot@.remaining()[k],
             // the traversal meets every element of the set (vstd), and everything met so far is a defined label
@@ -496,6 +527,7 @@ impl CMDDriver {
         invariant
             verif_tr.pre_calls == 1 && verif_tr.execs.len() == 0 && verif_tr.svcs.len() == 0 && verif_tr.code_prints.len() == 0 && verif_tr.prompts.len() == 0, //# C12 load.before_any_instruction
             verif_tr.pre.ok && verif_tr.pre.lmap == ictx.label_map@ && verif_tr.pre.und == undefined_labels@ && verif_tr.pre.code == out.code@ && verif_tr.pre.data == out.data@,
+            !verif_ct.has_lookup && verif_ct.lookups_ok && verif_ct.cites_ok,
             verif_tr.datas.len() == verif_it.history@.len(), //# C12 load.one_call_per_data_line
             forall|k: int| 0 <= k < verif_tr.datas.len() ==> (#[trigger] verif_tr.datas[k]).okay, //# C12 load.next_line_continuing_counter_before_code
             verif_tr.datas.len() > 0 ==> ctr == verif_tr.datas.last().ctr_out, //# C12 load.counter_is_carried_over
@@ -538,6 +570,7 @@ impl CMDDriver {
             p_int(verif_tr), //# C18 loop.int_ok_so_far
             p_data(verif_tr), //# C12 loop.data_ok_so_far
             p_prompts(verif_tr), //# C20 loop.one_prompt_per_instruction_iff_stepping
+            verif_ct.cites_ok && verif_ct.lookups_ok, //# C16,C20 loop.messages_cite_the_line_of_the_instructions_own_source_position
             p_code_prints(verif_tr), //# C17 loop.print_reader_only_for_print_lines_once
             p_svcs(verif_tr), //# C18 loop.service_only_for_int_with_supported_ah_once
 //@end
